@@ -231,6 +231,9 @@ Alphabet ==
                   MChg("A", x, None, D1("max_length", 20), "j"),
                   MAdd("A", x, "Int", D1("null", TRUE), None),
                   MAdd("A", x, "Int", D2("null", TRUE, "unique", TRUE), None),
+                  \* an indexed column that comes (back): after MDel of an indexed column of the same
+                  \* name the tracked database state must have forgotten the old index
+                  MAdd("A", x, "Int", D2("null", TRUE, "db_index", TRUE), None),
                   MDel("A", x) } : x \in FieldNames }
     [] AlphaId = 5 ->      \* field-name reuse on model A: renames, deletes, re-adds, and
                            \* NULLs filled with two different initial values
@@ -700,6 +703,12 @@ Bump(counts, key, n) == IF n = 0 THEN counts ELSE Put(counts, key, Get(counts, k
 (* TRUE: DatabaseState.rename_table moves the tracked indexes along with a
    renamed table (as repaired, d61d5fe); FALSE: as originally found *)
 StateFollowsTableRename == TRUE
+(* TRUE: delete_column (SQLite) stops tracking the indexes on just the deleted column (as repaired,
+   556d1aa); FALSE, as found: they stay in the tracked DatabaseState until the next rescan, and an
+   AddField of the same column with db_index=True later in the same AppMutator run - e.g. after the
+   optimiser folded ChangeField(db_index=True) into it - is rejected ("This index already exists") *)
+StateForgetsDeletedColumn == TRUE
+PlainIndexed(fs) == fs.ftype \in {"FK", "O2O"} \/ Get(fs.attrs, "db_index", FALSE) = TRUE
 
 RECURSIVE Plan(_, _, _, _, _)
 Plan(ms, sig, curModel, g, acc) ==
@@ -718,13 +727,19 @@ Plan(ms, sig, curModel, g, acc) ==
                      shrunk == mu.k = "Del" /\ \E i \in 1..Len(sig[mu.m].ut) :
                                    InSeq(mu.f, sig[mu.m].ut[i]) /\ Len(sig[mu.m].ut[i]) > 1
                      onto == mu.k = "RenF" /\ mu.nf \in DOMAIN sig[mu.m].fields
+                     readd == ~StateForgetsDeletedColumn /\ mu.k = "Add"
+                              /\ <<sig[mu.m].table, mu.f>> \in acc.deli
+                              /\ Get(mu.attrs, "db_index", FALSE) = TRUE
                      g2   == [g1 EXCEPT !.haz = @ \cup MutHazards(mu, sig)
                                   \cup (IF stale THEN {"state-stale-after-rename"} ELSE {})
                                   \cup (IF onto THEN {"rename-onto-existing-column"} ELSE {})
+                                  \cup (IF readd THEN {"deleted-column-index-still-tracked"} ELSE {})
                                   \cup (IF shrunk THEN {"unique-together-shrunk-by-delete"} ELSE {})]
                  IN Plan(Tail(ms), Sim(mu, sig).sig, mu.m, g2,
                          [acc EXCEPT !.counts = Bump(@, sig[mu.m].table, g2.cnt),
                                      !.ren = IF mu.k = "RenM" THEN @ \cup {mu.dbtable} ELSE @,
+                                     !.deli = IF mu.k = "Del" /\ PlainIndexed(sig[mu.m].fields[mu.f])
+                                              THEN @ \cup {<<sig[mu.m].table, mu.f>>} ELSE @,
                                      !.renf = IF mu.k = "RenF" THEN @ \cup {sig[mu.m].table}
                                               \* a renamed table keeps its stale column entries
                                               ELSE IF mu.k = "RenM" /\ sig[mu.om].table \in @
@@ -733,7 +748,7 @@ Plan(ms, sig, curModel, g, acc) ==
 (* ren / renf: tables renamed, and tables with a renamed column, so far in this
    AppMutator run -- DatabaseState keeps tracking their indexes under the old
    table / column name until the next rescan *)
-Acc0 == [counts |-> EmptyDict, haz |-> {}, ren |-> {}, renf |-> {}]
+Acc0 == [counts |-> EmptyDict, haz |-> {}, ren |-> {}, renf |-> {}, deli |-> {}]
 PlanOf(ms, sig) == Plan(ms, sig, None, G0, Acc0)
 Rebuilds(ms, sig) == PlanOf(ms, sig).counts
 
@@ -746,7 +761,7 @@ PlanIndividually(ms, sig, acc) ==
          IN PlanIndividually(Tail(ms), Sim(mu, sig).sig,
                 [counts |-> [t \in DOMAIN acc.counts \cup DOMAIN p.counts |->
                                 Get(acc.counts, t, 0) + Get(p.counts, t, 0)],
-                 haz |-> acc.haz \cup p.haz, ren |-> {}, renf |-> {}])
+                 haz |-> acc.haz \cup p.haz, ren |-> {}, renf |-> {}, deli |-> {}])
 
 (* tables linked by a RenameModel of the sequence are one table *)
 TableClass(t) ==
